@@ -128,6 +128,9 @@ CORPUS = [
     (S(ts(A("?n"), ["t", [arr([3])]], None)), ["raise:AnnotationError"]),
     (S(ts(A("?n"), ["t", [arr([3])]], None), nocontext=True), ["raise:AnnotationError"]),
     (S(ts(["pytree", A("?n"), "S"], ["t", [["t", [arr([3])]]]], "T")), ["raise:AnnotationError"]),
+    (S(ts(["pytree", ["union", ["int", A("?n")]], "S"], ["t", [["i", 1], arr([3])]], "T")), ["raise:AnnotationError"]),
+    (S(ts(["pytree", A("#?n"), "S"], ["t", [arr([1]), arr([3])]], "T")), ["raise:AnnotationError"]),
+    (S(ts(["pytree", ["union", ["int", A("?n")]], "S"], ["d", {"a": ["i", 0], "b": arr([4])}], "T")), ["raise:AnnotationError"]),
     # exactly one structured PyTree, '?' inside a union / tuple leaf type: usable
     (S(ts(["union", ["int", A("?n")]], ["t", [["i", 1], arr([3])]])), ["acc"]),
     (S(ts(["tuple", [A("?n"), A("?n m")]], ["l", [["t", [arr([3]), arr([3, 5])]], ["t", [arr([4]), arr([4, 5])]]]])), ["acc"]),
@@ -145,6 +148,14 @@ def main():
     for _ in range(n):
         s, m = gen_session(R.rng)
         sessions.append(s); meta.append(("gen", m))
+    # '?' beneath TWO nested structured PyTrees, PyTree[PyTree[L, "S"], "T"]: always AnnotationError, whatever the leaves are
+    # (also when the first leaves of the inner tree never consult the '?' axis: ints of a union, size-1 broadcast axes)
+    for _ in range(max(40, n // 12)):
+        s, m = gen_session(R.rng)
+        for st in s["steps"]:
+            if st["kind"] == "tree":
+                st["leaf"] = ["pytree", st["leaf"], "S"]
+        sessions.append(s); meta.append(("nested2", m))
     nw = 8
     chunks = [sessions[i::nw] for i in range(nw)]
     from concurrent.futures import ThreadPoolExecutor
@@ -165,6 +176,13 @@ def main():
                 nested_plain = any(s["kind"] == "tree" and isinstance(s["leaf"], list) and s["leaf"][0] == "pytree" and s["leaf"][2] is None for s in sess["steps"])
                 R.violation("property", "documented behaviour of '?' axes: expected %s, implementation %s for %s" % (mt[1], vs, json.dumps(sess["steps"])), {"session": sess, "expected": mt[1], "impl": vs},
                             key={"kind": "corpus", "case": "structureless-nested" if nested_plain else "other", "impl": str(vs)})
+        elif mt[0] == "nested2":
+            for st_, v_ in zip(sess["steps"], vs):
+                if st_["kind"] == "tree" and v_ != "raise:AnnotationError":
+                    R.violation("property", "a '?' axis beneath two nested structured PyTrees (PyTree[PyTree[%s, 'S'], 'T']) did not raise AnnotationError: %s for %s" % (json.dumps(st_["leaf"][1]), v_, json.dumps(st_["value"])),
+                                {"session": sess, "impl": vs}, key={"kind": "nested-two-structured"})
+                    break
+            nontriv.add(json.dumps(sess, sort_keys=True))
         else:
             lt, mode, nleaves, probed = mt[1]
             if probed and vs[-1] != "acc":
